@@ -512,6 +512,13 @@ def run(ctx):
     rule_file_list_immutable(ctx, facts, "C01-R7")
     from .entry import rule_entry_record
     rule_entry_record(ctx, facts, "C01-R2")
+    # "recognised" means the configured macros: an ID on a statement that the filter wrongly rejects is invisible to
+    # the scan and is issued again (premises shared with C10/C11)
+    from . import finder as _finder
+    from .confimm import rule_config_as_loaded
+    _finder.rule_macro_filter(ctx, facts, "C01-R7")
+    _finder.rule_filter_before_entry(ctx, facts, "C01-R7")
+    rule_config_as_loaded(ctx, facts, "C01-R7")
     ctx.assume("the lock, when used, is ahead of every ID in the tree (statement's precondition)")
     ctx.assume("files do not change between the scanning pass and the insertion pass of one run")
     return {
